@@ -11,6 +11,7 @@ import (
 	"strings"
 
 	"deps.dev/util/resolve"
+	"deps.dev/util/semver/verifhook"
 	"verif/sim/kernel"
 	"verif/sim/rt"
 )
@@ -171,6 +172,14 @@ type simClient struct {
 	fired   []bool
 }
 
+// sched / setSched: see simService.sched.
+//
+//go:norace
+func (c *simClient) sched() *kernel.Sched { return c.s }
+
+//go:norace
+func (c *simClient) setSched(s *kernel.Sched) { c.s = s }
+
 // plan sets the fault plan of the running task's next operation: the fault
 // fires at the at-th call (of the given kind, if label != 0).
 func (c *simClient) plan(t, kind, label, at, period int) {
@@ -198,10 +207,12 @@ func aimed(kind int, label, detail string) bool {
 	return callKinds[kind] == label
 }
 
-func (c *simClient) enter(label string) error { return c.enterCall(label, "") }
+func (c *simClient) enter(ctx context.Context, label string) error {
+	return c.enterCall(ctx, label, "")
+}
 
-func (c *simClient) enterCall(label, detail string) error {
-	s := c.s
+func (c *simClient) enterCall(ctx context.Context, label, detail string) error {
+	s := c.sched()
 	if s == nil {
 		return nil
 	}
@@ -228,6 +239,11 @@ func (c *simClient) enterCall(label, detail string) error {
 			c.cancels[t]()
 		}
 		return errBudget
+	}
+	if verifhook.DeadlineFired(ctx) {
+		// a deadline the code under test set itself passed while the call was
+		// under way: a network client answers with the context's error
+		return ctx.Err()
 	}
 	if c.fkind != nil && c.fkind[t] != faultNone && aimed(c.flabel[t], label, detail) {
 		c.fcount[t]++
@@ -265,28 +281,28 @@ func (c *simClient) enterCall(label, detail string) error {
 }
 
 func (c *simClient) Version(ctx context.Context, vk resolve.VersionKey) (resolve.Version, error) {
-	if err := c.enter("Version"); err != nil {
+	if err := c.enter(ctx, "Version"); err != nil {
 		return resolve.Version{}, err
 	}
 	return c.inner.Version(ctx, vk)
 }
 
 func (c *simClient) Versions(ctx context.Context, pk resolve.PackageKey) ([]resolve.Version, error) {
-	if err := c.enter("Versions"); err != nil {
+	if err := c.enter(ctx, "Versions"); err != nil {
 		return nil, err
 	}
 	return c.inner.Versions(ctx, pk)
 }
 
 func (c *simClient) Requirements(ctx context.Context, vk resolve.VersionKey) ([]resolve.RequirementVersion, error) {
-	if err := c.enter("Requirements"); err != nil {
+	if err := c.enter(ctx, "Requirements"); err != nil {
 		return nil, err
 	}
 	return c.inner.Requirements(ctx, vk)
 }
 
 func (c *simClient) MatchingVersions(ctx context.Context, vk resolve.VersionKey) ([]resolve.Version, error) {
-	if err := c.enterCall("MatchingVersions", vk.Version); err != nil {
+	if err := c.enterCall(ctx, "MatchingVersions", vk.Version); err != nil {
 		return nil, err
 	}
 	return c.inner.MatchingVersions(ctx, vk)
@@ -327,4 +343,6 @@ func modeName(m int) string {
 	return [...]string{"serial", "sticky", "uniform", "round-robin", "pct", "targeted"}[m]
 }
 
-func latName(l int) string { return [...]string{"none", "uniform-1-50ms", "bimodal-1s-stragglers"}[l] }
+func latName(l int) string {
+	return [...]string{"none", "uniform-1-50ms", "bimodal-1s-stragglers", "heavy-tail-100ms-100s-stragglers"}[l]
+}
